@@ -11,6 +11,7 @@ import (
 	"reservoir/metrics"
 	"reservoir/utils/atomics"
 	"reservoir/utils/bytesize"
+	"reservoir/utils/verifhook"
 	"sync"
 	"time"
 
@@ -63,7 +64,9 @@ func NewMemoryCache[MetadataT any](cfg *config.Config, memoryBudgetPercent int, 
 	// Notifications are delivered asynchronously and may arrive out of order, so the listeners apply
 	// the value that is current when they run rather than the one carried by the notification.
 	c.subs.Add(cfg.Cache.MaxCacheSize.OnChange(func(bytesize.ByteSize) {
-		c.maxCacheSize.Set(cfg.Cache.MaxCacheSize.Read().Bytes())
+		newMax := cfg.Cache.MaxCacheSize.Read().Bytes()
+		verifhook.At("cache.maxsize.read", newMax)
+		c.maxCacheSize.Set(newMax)
 	}))
 
 	c.subs.Add(cfg.Cache.Memory.MemoryBudgetPercent.OnChange(func(int) {
